@@ -154,6 +154,16 @@ fn run(op: &str, a: &[&str]) -> String {
                 w => out(&binop(w, "rr", x, y)),
             }
         }
+        // new0 <ctor>: a zero modulus through ConstDivisor::new / from_word / from_dword / Reducer::new
+        "new0" => {
+            let r = match a[0] {
+                "w" => ConstDivisor::from_word(0),
+                "d" => ConstDivisor::from_dword(0),
+                "r" => <ConstDivisor as Reducer<UBig>>::new(&UBig::ZERO),
+                _ => ConstDivisor::new(UBig::ZERO),
+            };
+            format!("ok {}", hu(&r.value()))
+        }
         // ---- the num_modular::Reducer implementation (values are in the pre-shifted form) ----
         "r_modulus" => {
             let r = <ConstDivisor as Reducer<UBig>>::new(&ubig(a[0]));
